@@ -178,7 +178,7 @@ def run_d2(case, drv) -> Outcome:
         wf = w.flatten()
         for u in range(len(uniq)):
             ws = wf[inv == u]
-            if cnt[u] > 1 and float((ws - ws[0]).abs().max()) > 1e-5 * float(ws[0]):
+            if cnt[u] > 1 and float((ws - ws[0]).abs().nan_to_num(nan=float('inf')).max()) > 1e-5 * float(ws[0]):
                 viol = viol or v('duplicates', 'coincident samples do not share their cell equally')
         # a cell is *split* among its coincident samples: together they weigh what the single sample weighs in the trajectory
         # without repetitions (also for edge cells, whose weight is a replacement value)
@@ -205,7 +205,7 @@ def run_d2(case, drv) -> Outcome:
                 viol = viol or v('rotation', 'interior weights change under rotation of the trajectory')
         if case['flavour'] == 'grid':
             inner = w[1:-1, 1:-1]
-            if inner.numel() and float((inner - 1).abs().max()) > 1e-4:
+            if inner.numel() and float((inner - 1).abs().nan_to_num(nan=float('inf')).max()) > 1e-4:
                 viol = viol or v('uniform', f'interior weights of a unit grid are not 1: {inner.flatten().tolist()[:5]}')
     return Outcome(key=('d2', case['flavour'], x.numel(), case['seed'] % 997), viol=viol, branches=[f'd2:{case["flavour"]}'], sample={**case, 'n_points': x.numel()})
 
